@@ -1,12 +1,15 @@
 """C01 - counted votes are conserved and every unit is reported exactly once.
 
  R1 partition (complete truth table): every unit in the feed or the baseline join is a row of exactly one of
-    reporting / nonreporting / unexpected / non-modelled; no other unit is; each frame carries its reporting flag and category;
+    reporting / nonreporting / unexpected / non-modelled; no other unit is; each frame carries its reporting flag (1 on the
+   reporting frame, 0 on every row of the other two: R1.reporting-flag) and category; missing vote counts of the units taken from
+   the feed count as 0 (R1.passed-through-nan-free); domain fact of the truth table: inData => inBaseline (left join, C09.R6);
  R2 unit table = unfiltered concat of the three frames, bound to the frames get_units returned, merged across estimands on
     every shared column (incl. the unit id);
  R3 aggregate provenance (all estimators): results_e = S_R + S_U + S_N (results_e), reporting = S_R + S_U + S_N (reporting)
-    per group of the aggregate key list; classification level: no U terms (by design); every operand that can be missing on
-    one side of an outer join is filled with 0 before it is added;
+    per group of the aggregate key list; every operand that can be missing on one side of an outer join is filled with 0 before it
+    is added; classification level: the third frame's rows WITH a known classification (non-modelled baseline units) belong to
+    their group (R3.classified-passthrough - today the whole frame is left out: open known finding K1, three call sites);
  R4 bootstrap: results_margin = (S_R + S_U + S_N results_margin) / T with T = S_U(results_weights) + S_R(w z) + S_N(w z_hat),
     the same T that is reported as pred_turnout;
  R5 merge keys: for every office class and aggregate level, the `on=` list of the cross-estimand merge contains every column of
